@@ -35,7 +35,7 @@ class Walk:
         from . import cint
         P = self.P
         fn = P.fn(fname)
-        g = P.cfg(fn)
+        g = P.cfg(fn, lower_ternary=True)        # `x = c ? a : H(k)` calls H only on that arm
         it = self.interp(fn, n, k)
         for i, (pn, pt) in enumerate(fn['params']):
             if args and i in args:
@@ -133,7 +133,7 @@ class Walk:
         from . import cint
         P = self.P
         fn = P.fn(fname)
-        g = P.cfg(fn)
+        g = P.cfg(fn, lower_ternary=True)
         it = self.interp(fn, n, None)
         for i, v in args.items():
             it.params[i] = v
